@@ -29,6 +29,9 @@
 (*   Ww*    concurrent writers through one newline-       FramesIntact        *)
 (*          delimited connection whose io.Writer is not   (state machine:     *)
 (*          atomic                                         CodecWrite.tla)    *)
+(*   Sc*    a byte stream that BREAKS under the reader:   ScDelivered,        *)
+(*          every cut x every end of the stream, SSE and  ScNoGaps (state     *)
+(*          newline-delimited                             machine: CodecSSE)  *)
 (* plus aggregated arbitrary bytes into the decoders (NeverPanics).           *)
 (* Byte-level fidelity cannot be expressed here (TLC integers are 32 bit, a   *)
 (* JSON document is not a TLA+ value): the Go harness compares every field of *)
@@ -591,4 +594,12 @@ HoldsLb(c, o) == BurstAnswered(c, o) /\ BurstIntact(c, o)
 (* 11. Concurrent writers through one newline-delimited connection: the case  *)
 (* attributes and the property FramesIntact are in CodecWriteDefs (extended   *)
 (* above), the state machine in CodecWrite.tla.                               *)
+
+-----------------------------------------------------------------------------
+(* 12. A byte stream that breaks under the reader (a body cut at any byte and *)
+(* ended by io.EOF, io.ErrUnexpectedEOF or another read error): what the      *)
+(* framing layer delivers is exactly the frames written, in order, without a  *)
+(* gap, never a prefix of one.  The alphabet, the writer, the readers and the *)
+(* property ScDelivered / ScNoGaps are in CodecSSEDefs (the monitor           *)
+(* instantiates it next to this module), the state machine in CodecSSE.tla.   *)
 =============================================================================
